@@ -7,7 +7,7 @@ Export ListNotations.
 Definition block := nat -> nat.                 (* offset inside the block -> byte *)
 Definition zero_block : block := fun _ => 0.
 
-Record fst := mkF {
+Record fstate := mkF {
   bs : nat;
   fsize : nat;
   bno : nat; valid : bool; dirty : bool; buf : block;
@@ -20,7 +20,7 @@ Record fst := mkF {
 Definition upd {A} (f : nat -> A) (k : nat) (v : A) : nat -> A := fun x => if Nat.eqb x k then v else f x.
 
 (* ext2fs_file_flush *)
-Definition flush (s : fst) : fst :=
+Definition flush (s : fstate) : fstate :=
   if valid s && dirty s then
     match phys s with
     | Some p => mkF (bs s) (fsize s) (bno s) true false (buf s) (Some p) (bmap s) (upd (disk s) p (buf s)) (fresh s)
@@ -31,12 +31,12 @@ Definition flush (s : fst) : fst :=
   else s.
 
 (* sync_buffer_position for a position inside block b *)
-Definition sync_to (s : fst) (b : nat) : fst :=
+Definition sync_to (s : fstate) (b : nat) : fstate :=
   if Nat.eqb b (bno s) then s
   else let s' := flush s in mkF (bs s') (fsize s') b false (dirty s') (buf s') (phys s') (bmap s') (disk s') (fresh s').
 
 (* load_buffer *)
-Definition load (s : fst) (dontfill : bool) : fst :=
+Definition load (s : fstate) (dontfill : bool) : fstate :=
   if valid s then s
   else
     let p := bmap s (bno s) in
@@ -44,7 +44,7 @@ Definition load (s : fst) (dontfill : bool) : fst :=
     mkF (bs s) (fsize s) (bno s) true false b p (bmap s) (disk s) (fresh s).
 
 (* one round of ext2fs_file_write: [data] (offset -> byte) of length c at offset [start] of block b, start + c <= bs *)
-Definition write_round (s : fst) (b start c : nat) (data : nat -> nat) : fst :=
+Definition write_round (s : fstate) (b start c : nat) (data : nat -> nat) : fstate :=
   let s1 := load (sync_to s b) (Nat.eqb c (bs s)) in
   let nb := fun o => if (start <=? o) && (o <? start + c) then data (o - start) else buf s1 o in
   (* the block is allocated at write time when it has no physical block yet *)
@@ -56,31 +56,81 @@ Definition write_round (s : fst) (b start c : nat) (data : nat -> nat) : fst :=
   mkF (bs s) (Nat.max (fsize s1) endpos) b true true nb ph mp (disk s1) fr.
 
 (* one round of ext2fs_file_read: the bytes of block b as the caller sees them *)
-Definition read_round (s : fst) (b : nat) : fst * block :=
+Definition read_round (s : fstate) (b : nat) : fstate * block :=
   let s1 := load (sync_to s b) false in (s1, buf s1).
 
 (* ext2fs_file_set_size2 (with ext2fs_file_zero_past_offset and the punch of everything behind) *)
 Definition zero_tail (blk : block) (off : nat) : block := fun o => if off <=? o then 0 else blk o.
 
-Definition set_size (s : fst) (posblock : nat) (n : nat) : fst :=
+(* ext2fs_file_zero_past_offset (repaired: also clears the tail in the buffer) *)
+Definition zero_part (s : fstate) (posblock n : nat) : fstate :=
   let off := n mod bs s in
-  let tb := (n + bs s - 1) / bs s in                 (* truncate_block *)
-  let old_tb := (fsize s + bs s - 1) / bs s in
-  let s1 := if Nat.eqb off 0 then s else
-            let s0 := sync_to s posblock in
-            let b := n / bs s in
-            let bf := if valid s0 && Nat.eqb (bno s0) b then zero_tail (buf s0) off else buf s0 in
-            let dk := match bmap s0 b with Some p => upd (disk s0) p (zero_tail (disk s0 p) off) | None => disk s0 end in
-            mkF (bs s0) (fsize s0) (bno s0) (valid s0) (dirty s0) bf (phys s0) (bmap s0) dk (fresh s0) in
+  if Nat.eqb off 0 then s else
+  let s0 := sync_to s posblock in
+  let b := n / bs s in
+  let bf := if valid s0 && Nat.eqb (bno s0) b then zero_tail (buf s0) off else buf s0 in
+  let dk := match bmap s0 b with Some p => upd (disk s0) p (zero_tail (disk s0 p) off) | None => disk s0 end in
+  mkF (bs s0) (fsize s0) (bno s0) (valid s0) (dirty s0) bf (phys s0) (bmap s0) dk (fresh s0).
+
+(* the size change itself and the punch of every block behind the new end (repaired: a buffered block that
+   goes away is dropped together with its cached physical block) *)
+Definition trunc_part (s1 : fstate) (old_size n : nat) : fstate :=
+  let tb := (n + bs s1 - 1) / bs s1 in
+  let old_tb := (old_size + bs s1 - 1) / bs s1 in
   if tb <? old_tb then
     let drop := tb <=? bno s1 in
     mkF (bs s1) n (bno s1) (if drop then false else valid s1) (if drop then false else dirty s1) (buf s1)
         (if drop then None else phys s1) (fun l => if tb <=? l then None else bmap s1 l) (disk s1) (fresh s1)
   else mkF (bs s1) n (bno s1) (valid s1) (dirty s1) (buf s1) (phys s1) (bmap s1) (disk s1) (fresh s1).
 
+Definition set_size (s : fstate) (posblock : nat) (n : nat) : fstate :=
+  trunc_part (zero_part s posblock n) (fsize s) n.
+
 (* what a reader of the file sees: the buffered block through the buffer, every other block through the map *)
-Definition view (s : fst) (i : nat) : nat :=
+Definition view (s : fstate) (i : nat) : nat :=
   if fsize s <=? i then 0 else
   let b := i / bs s in
   if valid s && Nat.eqb (bno s) b then buf s (i mod bs s)
   else match bmap s b with Some p => disk s p (i mod bs s) | None => 0 end.
+
+(* ---- whole operations, as sequences of rounds (used by the correspondence check) ---- *)
+Definition finit (blocksize : nat) : fstate := mkF blocksize 0 0 false false zero_block None (fun _ => None) (fun _ => zero_block) 1.
+
+Fixpoint write_op (fuel : nat) (s : fstate) (pos : nat) (data : list nat) : fstate :=
+  match fuel, data with
+  | O, _ => s
+  | _, [] => s
+  | S f, _ =>
+    let b := pos / bs s in
+    let start := pos mod bs s in
+    let c := Nat.min (bs s - start) (length data) in
+    write_op f (write_round s b start c (fun o => nth o data 0)) (pos + c) (skipn c data)
+  end.
+
+Definition punch_op (s : fstate) (a b : nat) : fstate :=
+  let s1 := flush s in
+  mkF (bs s1) (fsize s1) (bno s1) false false (buf s1) None (fun l => if (a <=? l) && (l <=? b) then None else bmap s1 l) (disk s1) (fresh s1).
+
+Inductive bop := BWrite (pos : nat) (data : list nat) | BSetSize (curpos n : nat) | BPunch (a b : nat) | BFlush | BReopen.
+
+Definition bstep (s : fstate) (o : bop) : fstate :=
+  match o with
+  | BWrite pos data => write_op (length data + 1) s pos data
+  | BSetSize curpos n => set_size s (curpos / bs s) n
+  | BPunch a b => punch_op s a b
+  | BFlush => flush s
+  | BReopen => let s1 := flush s in mkF (bs s1) (fsize s1) 0 false false (buf s1) None (bmap s1) (disk s1) (fresh s1)
+  end.
+
+(* which logical blocks below [n] are mapped, and the file content, after the final flush *)
+Definition mapped_blocks (s : fstate) (n : nat) : list nat :=
+  filter (fun l => match bmap (flush s) l with Some _ => true | None => false end) (seq 0 n).
+Definition content (s : fstate) : list nat := map (view (flush s)) (seq 0 (fsize s)).
+
+(* the code as pinned kept the buffer and its cached physical block across a truncation *)
+Definition trunc_part_unrepaired (s1 : fstate) (old_size n : nat) : fstate :=
+  let tb := (n + bs s1 - 1) / bs s1 in
+  let old_tb := (old_size + bs s1 - 1) / bs s1 in
+  if tb <? old_tb then
+    mkF (bs s1) n (bno s1) (valid s1) (dirty s1) (buf s1) (phys s1) (fun l => if tb <=? l then None else bmap s1 l) (disk s1) (fresh s1)
+  else mkF (bs s1) n (bno s1) (valid s1) (dirty s1) (buf s1) (phys s1) (bmap s1) (disk s1) (fresh s1).
